@@ -12,4 +12,5 @@ INVARIANT TypeOK
 INVARIANT PlacedPreserved
 INVARIANT WidthOK
 INVARIANT DoneOK
+PROPERTY InputUntouched
 CHECK_DEADLOCK FALSE
